@@ -61,7 +61,7 @@ Definition v1inv (h : hdr) (v : v1st) : Prop :=
 
 Definition inv (s : pst) : Prop :=
   match s with
-  | SStart | SVersionArg | SWantOption _ | SErr _ => True
+  | SStart | SVersionArg | SWantOption _ | SErr _ | SLate _ => True
   | SOpt h | SOptR h => h_ports h = (-1)%Z /\ h_ref h = None
   | SBody h | SInfo h => hdr_inv h
   | SArg h a => hdr_inv h /\ (a = APorts -> h_ports h = (-1)%Z)
@@ -341,11 +341,11 @@ Proof.
     + destruct o; cbn [inv apply_op]; split; assumption.
     + exact Hh.
     + apply inv_body_tok, Hh.
-  - (* SOptR *) destruct t; try exact I. destruct (xle x xq0); [exact I | exact Hs].
+  - (* SOptR *) destruct t; try exact I. destruct (negb (xlt xq0 x)); [exact I | exact Hs].
   - (* SBody *) apply inv_body_tok, Hs.
   - (* SArg *) destruct Hs as [Hh Ha]. apply inv_arg_tok; assumption.
   - (* SRef *) destruct Hs as (Hh & Hr & H0 & Hl).
-    destruct left as [| k]; [exact I |]. destruct t; try exact I. destruct (xle x xq0); [exact I |].
+    destruct left as [| k]; [exact I |]. destruct t; try exact I. destruct (negb (xlt xq0 x)); [exact I |].
     destruct k; cbn [inv].
     + destruct Hh as [A _]. split; [exact A |]. cbn [set_ref h_ref h_ports]. split; [exact H0 |].
       rewrite rev_length. cbn [length]. lia.
@@ -359,6 +359,7 @@ Proof.
   - (* SV1Line *) apply inv_v1_line_tok, Hs.
   - exact Hs.
   - exact I.
+  - destruct t; exact I.
 Qed.
 
 Lemma pstep_inv : forall s x, inv s -> inv (pstep s x).
